@@ -8,7 +8,7 @@
 (* Trees are records (as read from JSON):                                  *)
 (*   [k |-> "num",  text |-> <<chars>>]        a numeric literal, spelled  *)
 (*   [k |-> "bool", b]   [k |-> "str", src |-> <<chars between the quotes>>]*)
-(*   [k |-> "var",  name]                      local variable / parameter  *)
+(*   [k |-> "var",  lvl, path]                 variable / symbol reference *)
 (*   [k |-> "un",   op, e]        op: neg not                              *)
 (*   [k |-> "bin",  op, l, r]     op: add sub mul div mod shl shr and or   *)
 (*                                    xor eq ne lt le gt ge land lor concat*)
@@ -263,6 +263,13 @@ Builtin(f, args) ==
 (* order is left to right; Unknown / Failed / Err / Big propagate out of   *)
 (* every construct; && and || are lazy.                                    *)
 (***************************************************************************)
+\* variables: [k |-> "var", lvl, path]: `lvl' leading dots, then a dotted path.
+\* env maps FULL dotted names (locals, parameters, symbols, "$"/"pc") to values;
+\* env["#ctx"] carries the chain of enclosing symbol names of the current item.
+RECURSIVE JoinDots(_)
+JoinDots(p) == IF Len(p) = 0 THEN "" ELSE IF Len(p) = 1 THEN p[1] ELSE p[1] \o "." \o JoinDots(Tail(p))
+CtxOf(env) == IF "#ctx" \in DOMAIN env THEN env["#ctx"].cps ELSE <<>>
+
 Bind(env, name, v) == [x \in DOMAIN env \cup {name} |-> IF x = name THEN v ELSE env[x]]
 
 R(v, env) == [v |-> v, env |-> env]
@@ -290,7 +297,11 @@ Eval(e, env) ==
       [] e.k = "str" ->
             LET u == Unescape(e.src, 1, <<>>) IN
             R(IF u.ok THEN StrV(u.cps, "utf8") ELSE ErrV, env)
-      [] e.k = "var" -> R(IF e.name \in DOMAIN env THEN env[e.name] ELSE ErrV, env)
+      [] e.k = "var" ->
+            LET ctx == CtxOf(env) IN
+            IF e.lvl > Len(ctx) THEN R(ErrV, env)
+            ELSE LET key == JoinDots(SubSeq(ctx, 1, e.lvl) \o e.path) IN
+                 R(IF key \in DOMAIN env THEN env[key] ELSE ErrV, env)
       [] e.k = "un" ->
             LET x == Eval(e.e, env) IN
             IF Propagates(x.v) THEN x ELSE R(Unary(e.op, x.v), x.env)
